@@ -780,6 +780,17 @@ func (h *handler) handleClose(ctx context.Context) {
 		h.logger.Debug("Subscriber closed", nil)
 	case <-ctx.Done():
 		// we are closing subscriber just when entire router is closed
+		select {
+		case <-h.routersCloseCh:
+			// Run() cancels ctx right after Close() signalled routersCloseCh: when both are ready
+			// the subscriber still has to be closed
+			h.logger.Debug("Waiting for subscriber to close", nil)
+			if err := h.subscriber.Close(); err != nil {
+				h.logger.Error("Failed to close subscriber", err, nil)
+			}
+			h.logger.Debug("Subscriber closed", nil)
+		default:
+		}
 	}
 	h.stopFn()
 }
